@@ -76,6 +76,10 @@ def witnesses():
         "self-list-duplicate-association-column": {"profile": "selflist", "perm": ["K0", "K1"], "spec": {
             "module": "gw_selflist", "order": ["K0", "K1"], "profile": "selflist", "classes": [
                 cl("K0", None, [f("uid", "int"), f("f0_0", "self_list", "K0")]), cl("K1", None, [f("uid", "int")])]}},
+        "unmapped-intermediate-parent-order": {"profile": "orm", "perm": ["K1", "K0"], "spec": {
+            "module": "gw_unmapped", "order": ["K1", "K0"], "profile": "orm", "classes": [
+                cl("K0", None, [f("uid", "int")]), dict(cl("U1", "K0", [f("u1_0", "int")]), unmapped=True),
+                cl("K1", "U1", [f("f1_0", "str")])]}},
         "no-builtin-field-unresolved-builtins": {"profile": "nouid", "perm": ["K1", "K0"], "spec": {
             "module": "gw_nobuiltin", "order": ["K0", "K1"], "profile": "orm", "classes": [
                 cl("K0", None, [f("f0_0", "opt_ref", "K1")]), cl("K1", None, [f("f1_0", "enum")])]}},
@@ -105,6 +109,8 @@ def expected_facts(spec):
     by = {c["name"]: c for c in spec["classes"]}
     exp = {}
     for c in spec["classes"]:
+        if c.get("unmapped"):
+            continue
         chain, cur = [], c
         while cur:
             chain.append(cur)
@@ -122,7 +128,8 @@ def expected_facts(spec):
                     rels[f["name"]] = {"uselist": True, "target": f["target"] + "DAO"}
                 else:
                     cols.add(f["name"])
-        exp[c["name"] + "DAO"] = {"original": c["name"], "base": (c["parent"] + "DAO") if c["parent"] else "Base",
+        mapped_parent = next((k["name"] for k in chain[1:] if not k.get("unmapped")), None)
+        exp[c["name"] + "DAO"] = {"original": c["name"], "base": (mapped_parent + "DAO") if mapped_parent else "Base",
                                   "columns": cols, "relationships": rels, "private": private}
     return exp
 
